@@ -12,3 +12,14 @@ Lemma shapes_ok :
   arity_apply_to_shape = 1%N /\ arity_apply_shape = 1%N /\ arity_unwrap_shape = 1%N
   /\ arity_partial_shape = 1%N /\ arity_trampoline_shape = 1%N /\ arity_analyzer_rule = 1%N.
 Proof. repeat split; reflexivity. Qed.
+
+(** the repairs F-08a, F-08b are in the working tree: the model ([recur_step]) follows these
+    flags, and the theorems of Properties/C08.v about it are stated for the repaired shape --
+    reverting a repair flips a flag and breaks them by name *)
+Lemma repairs_present : arity_tramp_nil = 1%N /\ arity_recur_flag = 1%N.
+Proof. repeat split; reflexivity. Qed.
+
+(** _update_signature_for_partial still has the shape of the open finding F-08c (the proposed
+    repair contradicts an expectation of the repo's own test-suite and is not applied) *)
+Lemma partial_cmp_open : arity_partial_cmp = 0%N.
+Proof. reflexivity. Qed.
